@@ -38,12 +38,24 @@ type RoCase struct {
 	// does first) after that many client calls - sequential mode - or that many
 	// virtual milliseconds - concurrent mode; clients keep calling
 	StopAt int `json:"stop_at,omitempty"`
+	// Early (concurrent mode, real manager): the applier task does not wait for
+	// Manager.Start to return - replicated entries arrive as soon as the
+	// replica's own loop runs, which Manager.startReplica starts before it
+	// makes the engine read-only
+	Early bool `json:"early,omitempty"`
+	// Mode, if set, is the replication mode string given to the manager instead
+	// of "replica" (other spellings): the node either refuses to start or is a
+	// replica in every respect
+	Mode string `json:"mode,omitempty"`
 }
 
 // unreachablePrimary is the connector of a replica whose primary is not there.
-type unreachablePrimary struct{}
+type unreachablePrimary struct{ up func() }
 
-func (unreachablePrimary) Connect(r *replication.Replica) error {
+func (u unreachablePrimary) Connect(r *replication.Replica) error {
+	if u.up != nil {
+		u.up() // the replica's loop runs: Replica.Start has been called
+	}
 	simrt.Sleep(200 * time.Millisecond)
 	return fmt.Errorf("failed to connect to primary at primary.example:50052: connection refused")
 }
@@ -105,30 +117,12 @@ func runC16(t *testing.T, c RoCase) *kit.Result {
 			res.V = &kit.Violation{Kind: "open-error", Signature: "open-error:first", Detail: err.Error()}
 			return
 		}
-		mgr, _ := replication.NewManager(e, &replication.ManagerConfig{Enabled: true, Mode: replication.ReplicationModeReplica, PrimaryAddr: "primary.example:50052", ListenAddr: "replica.example:50053", ForceReadOnly: true})
-		started := false
-		if replication.VerifHooked {
-			// the manager itself starts the replica (which keeps trying to reach
-			// a primary that is not there) and makes the engine read-only
-			replication.VerifNewConnector = func() replication.PrimaryConnector { return unreachablePrimary{} }
-			replication.VerifWrapApplier = nil
-			if err := mgr.Start(); err != nil {
-				res.V = &kit.Violation{Kind: "open-error", Signature: "open-error:replication-manager", Detail: err.Error()}
-				return
-			}
-			started = true
-		} else {
-			e.SetReadOnly(true) // what Manager.startReplica does before it connects
+		mode := replication.ReplicationModeReplica
+		if c.Mode != "" && replication.VerifHooked {
+			mode = c.Mode
 		}
-		stopped := false
-		stopManager := func() {
-			if started && !stopped {
-				stopped = true
-				simrt.Note("replication manager stops")
-				mgr.Stop()
-			}
-		}
-		applier := replication.NewEngineApplier(e)
+		mgr, _ := replication.NewManager(e, &replication.ManagerConfig{Enabled: true, Mode: mode, PrimaryAddr: "primary.example:50052", ListenAddr: "replica.example:50053", ForceReadOnly: true})
+		var applier replication.WALEntryApplier
 		reg := transaction.NewRegistryWithTTL(5*time.Minute, 2*time.Minute, 75, 90)
 		svc := service.NewKevoServiceServer(e, reg, mgr)
 		ctx := context.WithValue(context.Background(), "peer", "client-x")
@@ -168,7 +162,12 @@ func runC16(t *testing.T, c RoCase) *kit.Result {
 				case pt.Kind() == reflect.Bool:
 					args = append(args, reflect.ValueOf(arg%2 == 1))
 				case pt == reflect.TypeOf([]*wal.Entry(nil)):
-					args = append(args, reflect.ValueOf([]*wal.Entry{{Type: wal.OpTypePut, Key: clientKeys[arg%len(clientKeys)], Value: []byte("client-batch")}, {Type: wal.OpTypeDelete, Key: clientKeys[(arg+1)%len(clientKeys)]}}))
+					// batches of one, two and three entries, put-first and delete-first
+					ents := []*wal.Entry{{Type: wal.OpTypePut, Key: clientKeys[arg%len(clientKeys)], Value: []byte("client-batch")}, {Type: wal.OpTypeDelete, Key: clientKeys[(arg+1)%len(clientKeys)]}, {Type: wal.OpTypePut, Key: clientKeys[(arg+2)%len(clientKeys)], Value: []byte("client-batch-2")}}
+					if arg%2 == 1 {
+						ents[0], ents[1] = ents[1], ents[0]
+					}
+					args = append(args, reflect.ValueOf(ents[:1+arg%3]))
 				case pt.Implements(reflect.TypeOf((*context.Context)(nil)).Elem()):
 					args = append(args, reflect.ValueOf(ctx))
 				case pt.Kind() == reflect.Ptr && strings.HasSuffix(pt.Elem().Name(), "Request"):
@@ -188,8 +187,11 @@ func runC16(t *testing.T, c RoCase) *kit.Result {
 						case "ReadOnly":
 							fld.SetBool(arg%2 == 1)
 						case "Operations":
-							ops := []*pb.Operation{{Type: pb.Operation_PUT, Key: clientKeys[arg%len(clientKeys)], Value: []byte("client-batch")}, {Type: pb.Operation_DELETE, Key: clientKeys[(arg+1)%len(clientKeys)]}}
-							fld.Set(reflect.ValueOf(ops))
+							ops := []*pb.Operation{{Type: pb.Operation_PUT, Key: clientKeys[arg%len(clientKeys)], Value: []byte("client-batch")}, {Type: pb.Operation_DELETE, Key: clientKeys[(arg+1)%len(clientKeys)]}, {Type: pb.Operation_PUT, Key: clientKeys[(arg+2)%len(clientKeys)], Value: []byte("client-batch-2")}}
+							if arg%2 == 1 {
+								ops[0], ops[1] = ops[1], ops[0]
+							}
+							fld.Set(reflect.ValueOf(ops[:1+arg%3]))
 						}
 					}
 					args = append(args, req)
@@ -318,6 +320,78 @@ func runC16(t *testing.T, c RoCase) *kit.Result {
 			w := kit.W{Key: op.Key, Val: en.Value, Del: en.Type == wal.OpTypeDelete}
 			m.Apply([]kit.W{w})
 		}
+		// the applier task of the concurrent mode
+		var wg simsync.WaitGroup
+		launched := false
+		launchApplier := func() {
+			if launched {
+				return
+			}
+			launched = true
+			wg.Add(1)
+			simrt.GoNamed("applier", func() {
+				defer wg.Done()
+				for i, op := range c.Applied {
+					if res.V != nil {
+						return
+					}
+					applyOne(i, op)
+				}
+			})
+		}
+		started := false
+		if replication.VerifHooked {
+			// the manager itself starts the replica (which keeps trying to reach
+			// a primary that is not there) and makes the engine read-only
+			replication.VerifNewConnector = func() replication.PrimaryConnector {
+				return unreachablePrimary{up: func() {
+					// the replica's loop runs (Replica.Start has been called): from now
+					// on a primary may push entries, whatever Manager.Start still has to do
+					if c.Conc && c.Early {
+						launchApplier()
+					}
+				}}
+			}
+			// the manager's own applier is the one that is fed
+			replication.VerifWrapApplier = func(addr string, a replication.WALEntryApplier) replication.WALEntryApplier {
+				applier = a
+				return a
+			}
+			if err := mgr.Start(); err != nil {
+				if mode != replication.ReplicationModeReplica {
+					// a spelling the manager does not know: no replica was started
+					res.Probe("unknown_mode_spelling_refused")
+					if e.IsReadOnly() {
+						res.V = &kit.Violation{Kind: "open-error", Signature: "refused-mode-left-engine-read-only", Detail: fmt.Sprintf("Manager.Start refused mode %q (%v) but left the engine read-only", mode, err)}
+					}
+					e.Close()
+					return
+				}
+				res.V = &kit.Violation{Kind: "open-error", Signature: "open-error:replication-manager", Detail: err.Error()}
+				return
+			}
+			started = true
+			if !e.IsReadOnly() {
+				// not a replica after all (the spelling meant something else to the manager)
+				res.Probe("mode_spelling_not_a_replica")
+				mgr.Stop()
+				e.Close()
+				return
+			}
+		} else {
+			e.SetReadOnly(true) // what Manager.startReplica does before it connects
+		}
+		stopped := false
+		stopManager := func() {
+			if started && !stopped {
+				stopped = true
+				simrt.Note("replication manager stops")
+				mgr.Stop()
+			}
+		}
+		if applier == nil {
+			applier = replication.NewEngineApplier(e)
+		}
 		if !c.Conc {
 			// alternate: a few replicated entries, then client calls, checking after every call
 			ai, ci := 0, 0
@@ -335,17 +409,7 @@ func runC16(t *testing.T, c RoCase) *kit.Result {
 				}
 			}
 		} else {
-			var wg simsync.WaitGroup
-			wg.Add(1)
-			simrt.GoNamed("applier", func() {
-				defer wg.Done()
-				for i, op := range c.Applied {
-					if res.V != nil {
-						return
-					}
-					applyOne(i, op)
-				}
-			})
+			launchApplier()
 			if c.StopAt > 0 {
 				wg.Add(1)
 				simrt.GoNamed("shutdown", func() {
@@ -411,6 +475,10 @@ func TestC16(t *testing.T) {
 			if r.Bool(0.3) {
 				c.StopAt = r.Range(1, 12)
 			}
+			c.Early = c.Conc && r.Bool(0.5)
+			if r.Bool(0.08) {
+				c.Mode = kit.PickOf(r, "Replica", "REPLICA", "replica ", "rePlica", "primary-replica", "slave", "standby")
+			}
 			c.Sched.MaxVirtS = 3600
 			keys := [][]byte{[]byte("rk0"), []byte("rk1"), []byte("rk2"), []byte("replicated-only")}
 			var tag uint32
@@ -446,6 +514,6 @@ func TestC16(t *testing.T) {
 			return out
 		},
 		Strip: func(c RoCase) any { d := c; d.Sched = kit.Sched{}; return d },
-		Rule:  "a replica engine (read-only flag set, real EngineApplier) receives 1-14 replicated puts/deletes/merges while 2-24 client calls are made to methods picked from the run-time method sets of *engine.EngineFacade and the service server (bypass methods *Internal, Close, SetReadOnly, GetWAL excluded and listed in the evidence), arguments synthesised from the parameter types; either alternating phases with the full-scan fingerprint compared with the model of replicated operations after every client call, or concurrently (applier task + 1-3 client tasks, conc/dense scheduling) with the comparison at the end - this explores the applier's SetReadOnly(false)...SetReadOnly(true) window of merge entries. Calls classified mutating must return a read-only error; GetNodeInfo must report role, primary address and read-only flag of the configuration. The real replication.Manager starts the replica (primary unreachable) and in 30% of the cases is stopped part-way while clients keep calling: the node must stay read-only. non-trivial = >=1 replicated entry and >=1 mutating call",
+		Rule:  "a replica engine (read-only flag set, real EngineApplier) receives 1-14 replicated puts/deletes/merges while 2-24 client calls are made to methods picked from the run-time method sets of *engine.EngineFacade and the service server (bypass methods *Internal, Close, SetReadOnly, GetWAL excluded and listed in the evidence), arguments synthesised from the parameter types; either alternating phases with the full-scan fingerprint compared with the model of replicated operations after every client call, or concurrently (applier task + 1-3 client tasks, conc/dense scheduling) with the comparison at the end - this explores the applier's SetReadOnly(false)...SetReadOnly(true) window of merge entries. Calls classified mutating must return a read-only error; GetNodeInfo must report role, primary address and read-only flag of the configuration. The real replication.Manager starts the replica (primary unreachable; the entries are fed to the manager's own applier) and in 30% of the cases is stopped part-way while clients keep calling: the node must stay read-only. In half of the concurrent cases the entries start to arrive as soon as the replica's own loop runs, i.e. possibly before Manager.Start has returned. Batches have one, two or three entries, put-first or delete-first. 8% of the cases give the manager another spelling of the mode ("Replica", "REPLICA", "standby", ...): either it refuses to start and leaves the engine writable, or the node is a replica in every respect, node information included. non-trivial = >=1 replicated entry and >=1 mutating call",
 	})
 }
